@@ -7,7 +7,11 @@ Every run:
      of /repo's working tree (AST classification structural / forwarding / generic, the C19 lattice);
  (b) Lean gate: ColaVerif.Properties.C19 (dispatch level by kernel evaluation on the generated table;
      cost level `allocs ≤ vol·b + leafStorage`; rule level) is rebuilt and its axioms audited;
- (c) runtime tie on LARGE structured operators (n² ≥ 1000 × factor storage): for every public call
+ (c) runtime tie on LARGE structured operators (n² ≥ 1000 × factor storage; two size classes, see SIZES: `small`, n ≈ 1.2–6.6 k,
+     where a tree that densifies is caught cheaply, and `large`, n ≈ 11–145 k, dimensioned so that itemsize × MODEL ≥ 4 × the
+     fixed allowance — the majority of the records then tests the model terms `peakMM` / `ruleCost` (cf, ownW), not the
+     allowance; an n × n array of a large operator does not fit under the address-space cap MEMORY_CAP and is judged as the
+     densification it is): for every public call
      of the statement (A @ X, X @ A, inv/solve, logdet/slogdet, diag, trace, exp, pow/sqrt/isqrt,
      cholesky, plu — algorithm argument OMITTED, Auto(), and a concrete admissible class)
        * peak additional memory (tracemalloc, numpy reports its buffers there) must be
@@ -1380,7 +1384,9 @@ def run(ctx):
         "distinct": len(stats["distinct"]),
         "rule": ("distinct = (operator structure without sizes, public call, algorithm presence) triples measured; non-trivial = the "
                  "operator has n ≥ 256 (all have n² ≥ 1000 × factor storage, checked when the zoo is built): a dense n × n "
-                 "materialisation (n² entries) is far outside the judged bound itemsize × [Op.peakMM | Op.ruleCost + Op.peakMM(result)] + 256 KiB — the measured factor is reported as dense_over_bound_min"),
+                 "materialisation (n² entries) is far outside the judged bound itemsize × [Op.peakMM | Op.ruleCost + Op.peakMM(result)] + 256 KiB — the measured factor is reported as dense_over_bound_min. "
+                 "Two size classes (SIZES): small (quick: b ∈ {1, 16}, algorithm omitted / one concrete class) and large (all b, all "
+                 "algorithm presences), the latter dimensioned so that the model term is at least 4 × the allowance (model_dominated)"),
         "operators": [{"operator": show(z["expr"]), "scale": z.get("scale"), "n": z["n"], "factor_storage": z["factor_storage"],
                        "n2_over_storage": round(z["ratio"])}
                       for z in (Z if not ctx.replay else [])],
@@ -1430,8 +1436,9 @@ def run(ctx):
     common.write_evidence(ctx, gate, cov, assumptions=[
         "X @ A is judged only where cola's own code is matrix-free on the NumPy backend: operators with an explicit _rmatmat (Dense, Diagonal, Sum, Product of those) and SelfAdjoint-annotated operators (conjugation shortcut through _matmat); the default _rmatmat of the other kinds goes through xnp.linear_transpose, which on this image is the harness shim (f(I)ᵀ @ X), not cola code",
         "the forwarding analysis looks at the operator argument only: what a forwarding rule does with the RESULT of the callee is covered by the runtime tie, not by the dispatch-level theorem",
-        "peak memory is judged against the Lean live-set model Op.peakMM (A @ X; measured/model = 1.00 at b = 16) and Op.ruleCost + Op.peakMM of the result operator (rule families), plus a FIXED allowance of 256 KiB = 64 KiB Python objects + 3 numpy ufunc iteration buffers of 8192 elements (measured: `d[:, None] * X` allocates one such buffer besides its result); IEEE values of the results are not judged here (C06–C11)",
+        "peak memory is judged against the Lean live-set model Op.peakMM (A @ X; measured/model up to 1.03 on the large size class) and Op.ruleCost + Op.peakMM of the result operator (rule families), plus a FIXED allowance of 256 KiB = 64 KiB Python objects + 3 numpy ufunc iteration buffers of 8192 elements (measured: `d[:, None] * X` allocates one such buffer besides its result); IEEE values of the results are not judged here (C06–C11)",
         "constants of Op.ruleCost (cf = dense copies of a FACTOR made by the generic rule, ownW = linear-size vectors per member made by a structural rule) are read off the source of the rules (doc comment in Model/RuleSkeleton.lean) and are upper bounds; LAPACK work space is not traced",
+        "while a measured call runs, the address space of the check process may grow by 3 GiB at most (RLIMIT_AS, restored afterwards): a MemoryError whose requested array has ≥ n²/4 entries is judged as a densification; operators with a top-level Permutation / Sparse leaf stay at n ≈ 11–12 k in the large class because Op.wf (Nodup) is quadratic in the interpreted driver",
         "the shape tree of a RESULT operator is read off the real object by class (TriangularInv is given the cost class of a Triangular product, Transpose / Adjoint of a leaf that of a one-term Sum); result classes outside the language fall back to the blanket bound of round 1 and are listed in the evidence",
     ])
     print(json.dumps({"evaluations": stats["evaluations"], "distinct_nontrivial": len(stats["nontrivial"]), "violations": len(viol),
